@@ -12,12 +12,18 @@ UNITS = [
     U("table_free", "h_table_free", canaries=2, functions=["p_hash_table_free"], defines_quick=["L=3"], defines_thorough=["L=4"],
       cbmc_flags=["--unwind", "7", "--unwinding-assertions", "--object-bits", "10"],
       bound={"quick": "a table object of 3 buckets holding at most 3 nodes in any distribution", "thorough": "3 buckets, at most 4 nodes"}),
+    U("sequence", "h_sequence", canaries=3, functions=[], defines_quick=["L=2"], defines_thorough=["L=4"], cbmc_flags=["--unwind", "9", "--unwinding-assertions", "--object-bits", "10"],
+      bound={"quick": "tables with at most 2 entries; lookup / insert-or-remove / lookup / the opposite update / lookup with any two keys", "thorough": "at most 4 entries, same history"}),
     U("remove", "h_remove", canaries=2, functions=["p_hash_table_remove"], cbmc_flags=["--unwind", "9", "--unwinding-assertions", "--object-bits", "10"]),
 ] + [U(n, "h_keys_values", replace=[], defines=["LIST_WHICH=%d" % w, "LISTING_STUB"], functions=[f], defines_quick=["L=2"], defines_thorough=["L=3"], timeout=600, timeout_thorough=3600,
           bound={"quick": "tables with at most 2 entries spread over 3 buckets", "thorough": "at most 3 entries spread over 3 buckets (4 entries: more than 80 minutes per unit under load)"},
           # per-loop bounds: bucket scan 101 iterations, chain / list loops L
           cbmc_flags=["--unwinding-assertions", "--object-bits", "10", "--unwind", "9", "--unwindset", f + ".1:103"])
        for w, (n, f) in enumerate((("keys", "p_hash_table_keys"), ("values", "p_hash_table_values"), ("lookup_by_value", "p_hash_table_lookup_by_value")))] + [
+] + [U(n + "_real_list", "h_listing_real", replace=[], defines=["LIST_WHICH=%d" % w], functions=[], canaries=1, defines_quick=["L=4"], defines_thorough=["L=6"], timeout=600, timeout_thorough=3600,
+          bound={"quick": "a table object of 3 buckets holding at most 4 entries in any distribution, real plist.c", "thorough": "3 buckets, at most 6 entries"},
+          cbmc_flags=["--unwinding-assertions", "--object-bits", "10", "--unwind", "9"])
+       for w, n in enumerate(("keys", "values", "lookup_by_value"))] + [
     U("table_null", "h_table_null"),
     U("list_append_prepend", "h_list_append_prepend", replace=[], defines=[], canaries=3, cbmc_flags=["--unwind", "9", "--unwinding-assertions", "--object-bits", "10"], functions=["p_list_append", "p_list_prepend", "p_list_length", "p_list_free"]),
     U("list_remove", "h_list_remove", replace=[], defines=[], canaries=2, cbmc_flags=["--unwind", "9", "--unwinding-assertions", "--object-bits", "10"], functions=["p_list_remove"]),
